@@ -1,4 +1,5 @@
 import SJ.Proofs.Tables
+import SJ.Proofs.Numeric
 /-
 C12 — Lookup, filtered iteration and bulk accessors agree with plain traversal.
 -/
@@ -11,5 +12,37 @@ theorem C12_tag_types (t : UInt8) : tagToType t = tagToTypeSpec t := tagToType_s
     representable; MaxInt64 and MaxUint64 are not and round up to them. -/
 theorem C12_boundaries : F64.ofNat (2^63 - 1) = F64.ofNat (2^63) ∧ F64.ofNat (2^64 - 1) = F64.ofNat (2^64) ∧
     F64.trunc? (F64.ofNat (2^63)) = some (2^63) ∧ F64.trunc? (F64.ofNat (2^64)) = some (2^64) := by decide
+
+open SJ.Numeric SJ.Generated in
+/-- **Int()**: for every number entry (float, int or uint word `b` on the tape, denoting the rational `x`),
+    the result is `x` truncated toward zero exactly when `−2^63 ≤ x < 2^63`, and an error otherwise —
+    never a wrapped or sign-flipped number. -/
+theorem C12_int_exact {pj : PJ} {i : Iter} {x : Rat} (hoff : i.off < i.lim) (hlim : i.lim ≤ pj.tape.size)
+    (hs : stored i.t (pj.tape[i.off]'(Nat.lt_of_lt_of_le hoff hlim)) = some x) :
+    i.int pj = if -(2 : Rat) ^ 63 ≤ x ∧ x < (2 : Rat) ^ 63 then .ok (truncQ x) else .error .generic :=
+  int_exact' hoff hlim hs
+
+open SJ.Numeric SJ.Generated in
+/-- **Uint()**: `x` truncated toward zero exactly when `0 ≤ x < 2^64`, an error otherwise. -/
+theorem C12_uint_exact {pj : PJ} {i : Iter} {x : Rat} (hoff : i.off < i.lim) (hlim : i.lim ≤ pj.tape.size)
+    (hs : stored i.t (pj.tape[i.off]'(Nat.lt_of_lt_of_le hoff hlim)) = some x) :
+    i.uint pj = if 0 ≤ x ∧ x < (2 : Rat) ^ 64 then .ok (truncQ x).toNat else .error .generic :=
+  uint_exact' hoff hlim hs
+
+open SJ.Numeric SJ.Generated in
+/-- **Float()**: always succeeds on a number entry, with the float64 nearest to `x` (ties to even). -/
+theorem C12_float_exact {pj : PJ} {i : Iter} {x : Rat} (hoff : i.off < i.lim) (hlim : i.lim ≤ pj.tape.size)
+    (hs : stored i.t (pj.tape[i.off]'(Nat.lt_of_lt_of_le hoff hlim)) = some x) :
+    ∃ f, i.float pj = .ok f ∧ IsNearestEven f x :=
+  float_exact' hoff hlim hs
+
+open SJ.Numeric in
+/-- **Bulk accessors** (`AsFloat`, `AsInteger`, `AsUint64`) return what plain traversal — `Advance` then the
+    per-element accessor — returns: the same values in order, or the same error. -/
+theorem C12_bulk_eq_traversal (pj : PJ) (kind : View.NumKind) (ws : List (UInt64 × UInt64)) (a : View)
+    (acc : Array UInt64) (fuel : Nat)
+    (hn : NumsAt pj a.off ws) (hl : a.off + 2 * ws.length < a.lim) (hf : ws.length < fuel) :
+    View.asNum pj kind a acc fuel = traverse kind pj a.iter ws acc :=
+  asNum_eq_traverse pj kind ws a acc fuel hn hl hf
 
 end SJ.Properties.C12
